@@ -4,6 +4,7 @@ CONSTANTS
   Caps = {1, 2, 3}
   Kinds = {"read", "write"}
   WhoPats = {"same", "alt"}
+  Resets = FALSE
   Quiets = {TRUE, FALSE}
 INVARIANT TypeOK
 INVARIANT InOrder
